@@ -271,3 +271,22 @@ def run(ctx):
                 (", (4,3)" if ctx.thorough else "", "/3" if ctx.thorough else "", bound, len(e1), 3 if ctx.thorough else 2))
     ctx.assumptions = ["asset cache capacity set to 0 in the E3 harness (no cross-execution cache hits)",
                        "sequentially consistent scheduler"]
+
+
+def replay(ctx, path):
+    """Re-run one recorded schedule without the explorer: ./check C33 --replay <file>"""
+    import json as _json
+    r = _json.load(open(path))["replay"]
+    if "schedule" not in r:
+        part = _e1([(r["model"], r["xml"])])
+        for v in part["violations"]:
+            print("VIOLATION", v["key"], v["what"])
+        return 1 if part["violations"] else 0
+    d = os.path.join(build.CACHE, "c33")
+    os.makedirs(d, exist_ok=True)
+    f = os.path.join(d, "replay.xml")
+    open(f, "w").write(r["xml"])
+    p = subprocess.run([e3_exe(), "replay", f, str(r["hw"]), r["schedule"]], capture_output=True, text=True)
+    print(p.stdout[-3000:])
+    print("replay exit", p.returncode)
+    return 1 if p.returncode else 0
